@@ -73,12 +73,26 @@ _write_record(struct qb_log_record *rec)
 	logt_writer_set = QB_FALSE;
 }
 
+/*
+ * Say how many messages the full queue turned away since this was last
+ * said.  The lock is held.
+ */
+static void
+_report_dropped_locked(void)
+{
+	int dropped = logt_dropped_messages;
+
+	logt_dropped_messages = 0;
+	if (dropped) {
+		printf("%d messages lost\n", dropped);
+	}
+}
+
 static void *qb_logt_worker_thread(void *data) __attribute__ ((noreturn));
 static void *
 qb_logt_worker_thread(void *data)
 {
 	struct qb_log_record *rec;
-	int dropped = 0;
 	int res;
 
 	/* Signal qb_log_thread_start that the initialization may continue */
@@ -116,11 +130,7 @@ retry_sem_wait:
 		qb_list_del(&rec->list);
 		logt_memory_used = logt_memory_used - strlen(rec->buffer) -
 		    sizeof(struct qb_log_record) - 1;
-		dropped = logt_dropped_messages;
-		logt_dropped_messages = 0;
-		if (dropped) {
-			printf("%d messages lost\n", dropped);
-		}
+		_report_dropped_locked();
 
 		_write_record(rec);
 
@@ -245,6 +255,8 @@ _flush_queue_locked(void)
 		free(rec->buffer);
 		free(rec);
 	}
+	/* what did not fit was logged after what has just been written */
+	_report_dropped_locked();
 }
 
 /*
